@@ -198,7 +198,7 @@ func runCheck(spec *PropSpec, tier string, seed int, accept, verbose bool, overl
 	id := spec.ID
 	timeout := 10000
 	if tier == "thorough" {
-		timeout = 60000
+		timeout = 30000
 	}
 	w, err := LoadWorld(spec.Dir, spec.Pkgs, filepath.Join(verifRoot, "contracts/ext"), overlay)
 	if err != nil {
@@ -293,6 +293,12 @@ func runCheck(spec *PropSpec, tier string, seed int, accept, verbose bool, overl
 				}
 			}
 			obls = keep
+		}
+		// safety side conditions are reported, never claimed: a short limit keeps the thorough tier bounded
+		for _, o := range obls {
+			if o.Side {
+				o.TimeoutMs = 5000
+			}
 		}
 		// obligations recorded as undecided in the ledger are not claimed: give them a short limit only
 		for _, o := range obls {
